@@ -578,7 +578,7 @@ func (p *Path) learn(c *Term, val bool) {
 	}
 	h := c.Hash()
 	p.known[h] = append(p.known[h], knownCond{c, val})
-	if (c.op == OUlt || c.op == OSlt) && val {
+	if (c.op == OUlt || c.op == OSlt || (c.op == OApp && c.name == "slt")) && val {
 		p.less = append(p.less, lessFact{c.op, c.args[0], c.args[1]})
 	}
 }
@@ -656,6 +656,15 @@ func (p *Path) implied(c *Term) (bool, bool) {
 			if deepSame(k.t, t) {
 				return k.val, true
 			}
+		}
+		return false, false
+	}
+	if c.op == OApp && c.name == "slt" {
+		if p.lessPath(OApp, c.args[0], c.args[1], 6) {
+			return pol, true
+		}
+		if p.lessPath(OApp, c.args[1], c.args[0], 6) {
+			return !pol, true
 		}
 		return false, false
 	}
